@@ -353,10 +353,7 @@ func C19(c *run.Check) {
 	defer finishTriage()
 	docs := c19Docs()
 	ftypes := c19FieldTypes()
-	tags := c19Tags
-	if c.Quick() {
-		tags = tags[:22]
-	}
+	tags := c19Tags // all tags in both tiers (seconds)
 	report := func(kind string, d *adoc.Doc, node, typ, tag, msg string) {
 		cs := c19Case{Kind: kind, Events: impl.Events(d), Node: node, Type: typ, Tag: tag, Detail: msg}
 		if triage {
